@@ -21,7 +21,9 @@ def gen_stream_messages(r, role):
     out = []
     for k in range(n):
         x = r.random()
-        tok = bytes(r.getrandbits(8) for _ in range(r.choice([0, 1, 2, 4, 8, 8])))
+        # (RFC 8974 extended tokens, TKL 13 and 14, where the peers' CSMs allow them)
+        tok = bytes(r.getrandbits(8) for _ in range(r.choice([0, 1, 2, 4, 8, 8, 8, 12, 13, 14, 20,
+                                                              40, 64])))
         if role == "server":
             if x < 0.08:
                 out.append(cw.msg(0xE2, token=tok))                         # Ping
@@ -113,6 +115,7 @@ def client_tcp_run(exe, stream, plan, seed):
     w = world.World(exe, seed=seed, cmd_timeout=20)
     try:
         w.cmd("node 0")
+        w.cmd("ctx 0 max_token=64")
         log = list(w.cmd("sess 0 0 tcp %s" % CLIENT_PEER))
         conn = [e["conn"] for e in log if e["e"] == "tcp_connect"]
         if not conn:
@@ -215,6 +218,9 @@ def work(job):
             role = "server" if kind == "tcp-server" else "client"
             msgs = gen_stream_messages(r, role)
             csm = cw.msg(0xE1, options=[(2, (1152).to_bytes(2, "big"))] if r.random() < 0.5 else [])
+            if any(len(m["token"]) > 8 for m in msgs):
+                # Extended-Token-Length: the peer announces what it is about to use
+                csm["options"].append((6, bytes([64])))
             stream = b"".join(cw.encode(m, "tcp") for m in [csm] + msgs)
             if len(stream) > (64 if tier == "quick" else 120) and r.random() < 0.5:
                 # keep a share of short streams for the exhaustive 1- and 2-cut placements
